@@ -34,6 +34,23 @@ claimed = {
          "Interleavings are sampled (GOMAXPROCS 1/2/4/16, yields, repetitions), not enumerated; a race needing a rare interleaving can be missed.",
          "Trusted: Go race detector; GORACE=halt_on_error. Open finding C17-001 gated (shared heap values)."),
 }
+claimed.update({
+ "C03": ("exploration", "rule x context table of well-typed / single-fault ill-typed twins plus generated well-typed programs with recorded-type comparison",
+         "Exhaustive over the hand-built rule x context table (51 statement rules x 15 contexts + 41 whole-program rules); the accept direction is additionally sampled with generated programs whose let-types are compared with the generator's typing.",
+         "Trusted: the generator's typing as independent statement of the rules; each ill-typed twin is sound by construction (differs from an accepted twin at one site that violates the rule whatever surrounds it). Message texts are not compared."),
+ "C12": ("exploration", "generated (value, type) pairs with near misses against own convertibility predicates, over API, JSON, in-program and host routes",
+         "Near-miss table exhaustive for 20 types x 16 near-miss kinds; random pairs to depth 3/4; the in-program route uses typed uses of every leaf so a wrongly admitted value surfaces.",
+         "Trusted: the oracle predicates written from the property text; conversions whose numeric result the property does not fix are only checked for admission (counted as doubts). Open finding C12-007 gated."),
+ "C13": ("exploration", "algebraic laws on generated values (equality, clone under mutation histories, JSON round trip, display agreement) in both value libraries",
+         "Random values to depth 3/4 with correlated pairs; stateful mutation histories for the copy law; exhaustive table of 416 near-equal pairs.",
+         "Trusted: hs.Equal / hs.Display as structural model; NaN, infinities and -0.0 excluded as the property says. Open finding C13-007 identified by signature."),
+ "C14": ("exploration", "metamorphic repetition: same sources analysed/compiled/run R times in one process and in a second process",
+         "Map-order dependence is detected probabilistically; bound stated in the rule.",
+         "Trusted: the worker re-runs the whole pipeline per repetition with fresh host objects."),
+ "C18": ("exploration", "exhaustive type x member cross product read from the analyzer's tables, executed as one-line programs with boundary arguments on both backends",
+         "Exhaustive over 21 type instantiations x all offered members x boundary argument tuples; reference results only where a member's meaning is unambiguous.",
+         "Trusted: the small reference model of index and list/string members; undocumented member meanings are only checked for 'no crash' (counted as doubts). Open finding C18-013 gated."),
+})
 pending = {}
 import os
 def main():
